@@ -242,3 +242,11 @@ def run(case, out):
         out.fault("error_path")
     except Exception as e:
         out.fail("intersection:bad-operand-wrong-exception:" + type(e).__name__, operand=case["bad_operand"])
+    out.ops += 1
+    try:
+        target & bad
+        out.fail("and:bad-operand-accepted", operand=case["bad_operand"])
+    except NotImplementedError:
+        out.fault("error_path")
+    except Exception as e:
+        out.fail("and:bad-operand-wrong-exception:" + type(e).__name__, operand=case["bad_operand"])
